@@ -21,7 +21,7 @@ import (
 	"github.com/named-data/ndnd/std/utils"
 )
 
-const lpPacketOverhead = 1 + 3
+const lpPacketOverhead = 1 + 3 + 1 + 3 // LpPacket TL + Fragment TL
 const pitTokenOverhead = 1 + 1 + 6
 const congestionMarkOverhead = 3 + 1 + 8
 
